@@ -12,8 +12,8 @@ V="$(dirname "$(readlink -f "$0")")/.."
 COVERAGE_CORE=sysmon VERIF_COV="$D" VERIF_EVIDENCE_DIR="$D/ev" "$V/check" "$ID" --tier "${VERIF_TIER:-quick}" > "$D/log" 2>&1
 tail -3 "$D/log"
 cd "$D"
-/venv/bin/python -m coverage combine --data-file="$D/.coverage" -q "$D"/cov.* > /dev/null 2>&1
+/venv/bin/python -m coverage combine --data-file="$D/.coverage" "$D"/cov.* 2>&1 | tail -1
 INC=""
-for f in "${@:-services/server/engine.py}"; do INC="$INC,*$f"; done
+for f in "${@:-services/server/engine.py}"; do INC="$INC,${VERIF_REPO:-/repo}/kmip/$f"; done
 /venv/bin/python -m coverage report --data-file="$D/.coverage" --include="${INC#,}" -m 2>&1 | cut -c1-4000
 if [ -n "$COVGAP_KEEP" ]; then cp "$D/.coverage" "$COVGAP_KEEP"; fi
